@@ -140,11 +140,17 @@ Definition run_fs (i : term) : term :=
   TL [of_opt_str (content (run s0 ops) target);
       TL (map (fun k => TL [TZ k; of_opt_str (content (nth (Z.to_nat k) states s0) target)]) (gzs (gn i 6)))].
 
-Definition opt_term_eqb (a b : term) : bool := term_eqb a b.
+(* observed contents identical to the old (TZ 0) / expected new (TZ 1) bytes of the input travel
+   as references *)
+Definition deref (i t : term) : term :=
+  match t with TZ 0 => gn i 2 | TZ 1 => gn i 4 | _ => t end.
+Definition deref_obs (i o : term) : term :=
+  TL [deref i (gn o 0); TL (map (fun kc => TL [gn kc 0; deref i (gn kc 1)]) (gl (gn o 1)))].
 
 (* spec: the op list is in the protocol class of theorem crash_atomic, every observed kill point
    left the old or the new contents, and the complete run (if it reported success) left the new *)
-Definition spec_fs (i o : term) : bool :=
+Definition spec_fs (i o0 : term) : bool :=
+  let o := deref_obs i o0 in
   let target := gs (gn i 1) in
   let ops := map fop_of (gl (gn i 3)) in
   let old := gn i 2 in
@@ -176,6 +182,7 @@ Definition run_C19 (i : term) : term :=
 Definition eqv_C19 (i m o : term) : bool :=
   let op := gs (gn i 0) in
   if String.eqb op "conc" then existsb (fun x => term_eqb x o) (gl m)
+  else if String.eqb op "fs" then term_eqb m (deref_obs i o)
   else term_eqb m o.
 
 (* ---- specification checkers evaluated on the IMPLEMENTATION's observable *)
